@@ -363,6 +363,7 @@ func cmdCheck(eng *Engine, args []string) int {
 	scanResults = append(scanResults, eng.layoutChecks(id)...)
 	scanResults = append(scanResults, eng.quoteChecks(id)...)
 	scanResults = append(scanResults, eng.descEndChecks(id)...)
+	scanResults = append(scanResults, eng.corpusChecks(id, tier)...)
 	if id == "C16" {
 		scanResults = append(scanResults, eng.repeatChecks(id)...)
 		// determinism of what is computed: C06's obligation set, re-run under C16
@@ -396,6 +397,24 @@ func cmdCheck(eng *Engine, args []string) int {
 				byBackend["ssa-scan"]++
 			}
 			samples = append(samples, fmt.Sprintf("%s: %s", r.Name, r.Goal))
+			continue
+		}
+		// an open known finding recorded under exactly this obligation name
+		isKnown := false
+		for _, k := range known {
+			if k.Status == "open" && k.Property == id && k.Obligation == r.Name {
+				isKnown = true
+				if !seenKnown[k.Text] {
+					seenKnown[k.Text] = true
+					knownHit = append(knownHit, k.Text)
+					fmt.Fprintf(&out, "KNOWN-FINDING: %s\n", k.Text)
+				}
+			}
+		}
+		if isKnown {
+			if strings.Contains(r.Name, "/bounded/") {
+				nOb--
+			}
 			continue
 		}
 		// the mismatching cases ARE the failing inputs, observed on the real code
